@@ -903,6 +903,8 @@ func (s *Service) processCreateIteratorRequest(conn net.Conn) {
 			resp.Type = influxql.Float
 		case query.IntegerIterator:
 			resp.Type = influxql.Integer
+		case query.UnsignedIterator:
+			resp.Type = influxql.Unsigned
 		case query.StringIterator:
 			resp.Type = influxql.String
 		case query.BooleanIterator:
